@@ -456,7 +456,51 @@ func c5PreChecks(c *Ctx) {
 				}
 				n++
 				d := Desc(st.Val)
-				ok2 := d == "Core(l)" || strings.HasSuffix(d, ".levelEnabler")
+				// the stored value is the logger's core or a copy of an enabler field, possibly handed down through
+				// constructor parameters (every call site must then pass such a value)
+				var live func(v ssa.Value, depth int) bool
+				live = func(v ssa.Value, depth int) bool {
+					v = Strip(v)
+					dd := Desc(v)
+					if dd == "Core(l)" || strings.HasSuffix(dd, ".levelEnabler") || strings.HasSuffix(dd, ".enab") {
+						return true
+					}
+					if cl, ok := v.(*ssa.Call); ok && IsCallTo(cl, "(*go.uber.org/zap.Logger).Core") {
+						return true
+					}
+					if depth > 4 {
+						return false
+					}
+					switch x := v.(type) {
+					case *ssa.Phi:
+						for _, e := range x.Edges {
+							if !live(e, depth+1) {
+								return false
+							}
+						}
+						return len(x.Edges) > 0
+					case *ssa.Parameter:
+						idx := -1
+						for i, p := range x.Parent().Params {
+							if p == x {
+								idx = i
+							}
+						}
+						sites := c.CallersOf(x.Parent().String())
+						if idx < 0 || len(sites) == 0 {
+							return false
+						}
+						for _, s := range sites {
+							a := s.Common().Args
+							if s.Common().StaticCallee() != x.Parent() || idx >= len(a) || !live(a[idx], depth+1) {
+								return false
+							}
+						}
+						return true
+					}
+					return false
+				}
+				ok2 := live(st.Val, 0)
 				c.Check(ok2, "R5.2", FuncKey(fn), "enabler-is-live-core/"+tf[0]+"."+tf[1]+"#"+itoa(n), st.Pos(), "the adapter's level enabler is the logger's core itself, not a snapshot (stored value %s)", d)
 			})
 		})
